@@ -252,8 +252,12 @@ where
     fn drop(&mut self) {
         // If we were the last Ref on this thread then we need to drop the thread-local
         // state for this thread. Note that there are 2 references - ourselves and the family state.
+        #[cfg(folo_verif)]
+        crate::verif_hook::point("ipt.drop.count");
         if Rc::strong_count(&self.inner) != 2 {
             // No - there is another Ref, so we do not need to clean up.
+            #[cfg(folo_verif)]
+            crate::verif_hook::point("ipt.drop.not_last");
             return;
         }
 
@@ -261,6 +265,26 @@ where
 
         // `self.inner` is now the last reference to the current thread's instance of T
         // and this instance will be dropped once this function returns and drops the last `Rc<T>`.
+    }
+}
+
+/// Verification-only read-only probe of the per-thread state map.
+#[cfg(folo_verif)]
+impl<T> InstancePerThread<T>
+where
+    T: linked::Object,
+{
+    /// The threads that currently have an entry in the thread-specific state map.
+    #[doc(hidden)]
+    #[must_use]
+    pub fn __verif_thread_state_keys(&self) -> Vec<ThreadId> {
+        self.family
+            .thread_specific
+            .read()
+            .expect(ERR_POISONED_LOCK)
+            .keys()
+            .copied()
+            .collect()
     }
 }
 
@@ -311,6 +335,8 @@ where
 
         // First, an optimistic pass - let us assume it is already initialized for our thread.
         {
+            #[cfg(folo_verif)]
+            crate::verif_hook::point("ipt.map.read");
             let map = self.thread_specific.read().expect(ERR_POISONED_LOCK);
 
             if let Some(state) = map.get(&thread_id) {
@@ -327,6 +353,8 @@ where
         let instance: Rc<T> = Rc::new(self.family.clone().into());
 
         // Let us add the new instance to the map.
+        #[cfg(folo_verif)]
+        crate::verif_hook::point("ipt.map.write");
         let mut map = self.thread_specific.write().expect(ERR_POISONED_LOCK);
 
         // In some wild corner cases, it is perhaps possible that the arbitrary code in the
@@ -361,6 +389,8 @@ where
         // We need to clear the thread-specific state for this thread.
         let thread_id = thread::current().id();
 
+        #[cfg(folo_verif)]
+        crate::verif_hook::point("ipt.clear.write");
         let mut map = self.thread_specific.write().expect(ERR_POISONED_LOCK);
         map.remove(&thread_id);
     }
@@ -400,6 +430,8 @@ where
             return;
         }
 
+        #[cfg(folo_verif)]
+        crate::verif_hook::point("ipt.family_drop.read");
         let map = self.thread_specific.read().expect(ERR_POISONED_LOCK);
         assert!(
             map.is_empty(),
